@@ -1,6 +1,6 @@
 (* History machine: a pool of aggregators and the operations a program applies to it. *)
 From Coq Require Import ZArith List String Bool.
-From Hgm Require Import NumOps Agg Ops Snap Json Eq.
+From Hgm Require Import NumOps Agg Ops Snap Json Eq Np.
 Import ListNotations.
 Local Open Scope Z_scope.
 
@@ -22,6 +22,8 @@ Section Run.
   | OFromJson (j : json N)     (* Factory.fromJson(document): push the container or raise *)
   | OJsonRT (i : nat)          (* push Factory.fromJson(pool[i].toJson()) *)
   | OEq (i j : nat) (tol : T)  (* a == b, b == a, and a == b at relative = absolute tolerance tol *)
+  | OFillNp (i : nat) (rows : list (datum N * T))   (* h.fill.numpy(columns, weights) *)
+  | OSnapP (i : nat)           (* snapshot up to empty sparse bins *)
   | OSnapAll.
 
   Definition dummy : agg := Leaf (LCount TId) no_quantity (leaf_zero (LCount TId)).
@@ -75,6 +77,10 @@ Section Run.
         let b2z (b : bool) : Z := if b then 1 else 0 in
         (p, [b2z (eqb numeq (get p i) (get p j)); b2z (eqb numeq (get p j) (get p i));
              b2z (eqb (numeq_t tol tol) (get p i) (get p j))])
+    | OFillNp i rows =>
+        let '(a', r) := fillnp (get p i) rows in
+        (set p i a', [oc r])
+    | OSnapP i => (p, snap (prune (get p i)))
     | OSnapAll => (p, List.concat (map (fun a => 7777 :: snap a) p))
     end.
 
